@@ -83,6 +83,68 @@ func (c *c11Codec[T]) nested(tok string) any {
 	return c.dec(tok)
 }
 
+// nestedShared builds the same nesting as nested, but all typed []T leaves are views of ONE backing array laid
+// out in the order second leaf, first leaf, third leaf, …: the spare capacity behind a leaf is another leaf.
+// Union must give the same answer whatever the memory layout of its inputs (it only reads them).
+func (c *c11Codec[T]) nestedShared(tok string) any {
+	var leaves [][]T
+	var collect func(tok string)
+	collect = func(tok string) {
+		if !strings.HasPrefix(tok, "[") {
+			return
+		}
+		items := parseList(tok)
+		if len(items) > 0 && items[0] == "s" {
+			var l []T
+			for _, it := range items[1:] {
+				l = append(l, c.dec(it))
+			}
+			leaves = append(leaves, l)
+			return
+		}
+		for _, it := range items {
+			collect(it)
+		}
+	}
+	collect(tok)
+	order := make([]int, len(leaves))
+	for i := range order {
+		order[i] = i
+	}
+	if len(order) >= 2 {
+		order[0], order[1] = 1, 0
+	}
+	var flat []T
+	off := make([]int, len(leaves))
+	for _, li := range order {
+		off[li] = len(flat)
+		flat = append(flat, leaves[li]...)
+	}
+	flat = append(flat, make([]T, 4)...) // some spare room behind the last leaf as well
+	next := 0
+	var build func(tok string) any
+	build = func(tok string) any {
+		if strings.HasPrefix(tok, "[") {
+			items := parseList(tok)
+			if len(items) > 0 && items[0] == "s" {
+				li := next
+				next++
+				return flat[off[li] : off[li]+len(leaves[li])]
+			}
+			out := make([]any, 0, len(items))
+			for _, it := range items {
+				out = append(out, build(it))
+			}
+			return out
+		}
+		if strings.HasPrefix(tok, "bad") {
+			return c.bad(tok, nil)
+		}
+		return c.dec(tok)
+	}
+	return build(tok)
+}
+
 type c11Runner[T comparable] struct{ c *c11Codec[T] }
 
 func (r *c11Runner[T]) Do(op []string) string {
@@ -110,6 +172,9 @@ func (r *c11Runner[T]) Do(op []string) string {
 		return plist(items)
 	case "union":
 		res, err := gogu.Union[T](c.nested(op[1]))
+		return errs(err) + " " + c.render(res)
+	case "unionshared":
+		res, err := gogu.Union[T](c.nestedShared(op[1]))
 		return errs(err) + " " + c.render(res)
 	case "inter":
 		return c.render(gogu.Intersection(c.lists(op[1])...))
@@ -344,6 +409,15 @@ func genC11(g *Gen) {
 			"without " + a + " [0,1,-2]", "diff " + a + " " + b, "diff " + b + " " + a, "union [" + a + ",[" + b + "]]"}
 		for _, f := range intFns {
 			ops = append(ops, "uniqueby "+f+" "+a, "interby "+f+" ["+a+","+b+"]", "diffby "+f+" "+a+" "+b)
+		}
+		g.Emit("c11", []string{"int"}, ops)
+	}
+	// (0b) Union on typed leaves that share one backing array (memory layout must not matter)
+	if g.Mine() {
+		var ops []string
+		for _, t := range []string{"[[s,4,5,6],[s,1,2,3],[s,7,8,9]]", "[[s,1,2],9,[s,1,2,3]]", "[[s,1],[[s,2,3],[s,4]],5,[s,6,7,8]]",
+			"[[s],[s,1,1],[s,2]]", "[[s,3,3],[[s,3]],[s,0,1]]", "[[s,1,2,3,4,5],[s,6],[s,7],[s,8,9]]", "[7,[s,1,2],[8,[s,3,4]],[s,5,6]]"} {
+			ops = append(ops, "unionshared "+t, "union "+t)
 		}
 		g.Emit("c11", []string{"int"}, ops)
 	}
